@@ -114,7 +114,7 @@ proofs = [
     Proof("sv_eq", [("nostd::operator==", 2, "bool (nostd::string_view, nostd::string_view)")], enforce=common.SV_EQ),
     Proof("sv_eq_cstr", [("nostd::operator==", 2, "bool (nostd::string_view, const char *)")], enforce=common.SV_EQ_CSTR, replace=[common.SV_EQ],
           harness=H_EQ_CSTR),
-    Proof("GetTimeoutFromString", [("GetTimeoutFromString", 2)], enforce="GetTimeoutFromString", replace=[common.SV_EQ_CSTR], solver="portfolio3", timeout=2400),
+    Proof("GetTimeoutFromString", [("GetTimeoutFromString", 2)], enforce="GetTimeoutFromString", replace=[common.SV_EQ_CSTR], solver="portfolio_smt", timeout=2400),   # cadical needs > 24 GB here and gives up
     Proof("Timeout_decimal_bounded4", [("GetTimeoutFromString", 2)],
           harness=H_DECIMAL.replace("h_Timeout_decimal_bounded", "h_Timeout_decimal_bounded4").replace("char s[8]; s[7] = 0;", "char s[5]; s[4] = 0;"),
           loop_contracts=False, unwind=6, level="bounded", solver="portfolio3", timeout=1500,
